@@ -39,6 +39,8 @@ class Gate:
                 self.wrole[w] = "ep"
         self._stage = {}
         self._val = {}
+        from .common import checkers_pins_definition
+        self._defn = set(checkers_pins_definition(f))
 
     # ---- classification
     def validator_role(self, name):
@@ -108,7 +110,7 @@ class Gate:
             if self.is_stage(n) or self.validator_role(n) is not None or n in self.W:
                 return False
             bb_ = self.f.bodies.get(n)
-            if bb_ is not None and bb_.locals[0]["ty"].startswith("(cozy_chess_types::bitboard::BitBoard, cozy_chess_types::bitboard::BitBoard"):
+            if n in self._defn:
                 return False
             return None
         paths = sym.SymExec(self.f, b, inline=noin, max_paths=200000, record_assigns=True).run()
